@@ -266,7 +266,7 @@ class SelWorld:
     """abstract operands of a conclusion selector: each evaluation of an operand is a stream of results (any length) whose truth
     flags are arbitrary; the operand sets its own flag before it yields (snapshot rule)"""
 
-    def __init__(self, vm, cname):
+    def __init__(self, vm, cname, operand_cls=None):
         self.vm = vm
         ctx = vm.ctx
         self.OR = vm.loader.cls(SYM, "OperationResult")
@@ -275,8 +275,16 @@ class SelWorld:
         self.updates = []         # (output result, conclusion set) of every update_conclusion call
         self.trues = {}           # operand name -> ghost key counting its true results in the current evaluation
         SE = vm.loader.cls(SYM, "SymbolicExpression")
-        self.left = vm.alloc(SE, {"_id_": 11, "_is_false_": False, "_conclusion_": PySet(["left-conclusion"])}, tag="left")
-        self.right = vm.alloc(SE, {"_id_": 12, "_is_false_": False, "_conclusion_": PySet(["right-conclusion"])}, tag="right")
+        # the operands are arbitrary rule (sub)trees: plain conditions, or selectors themselves (sibling refinements nest on the left
+        # of each other, a refinement may head an else-if chain, ...); their own operands carry OTHER conclusions
+        OC = vm.loader.cls(CS, operand_cls) if operand_cls else SE
+        inner = lambda side: {} if not operand_cls else {
+            "left": vm.alloc(SE, {"_id_": 21, "_is_false_": False, "_conclusion_": PySet([f"conclusion-of-the-{side}-operands-own-left"])}, tag=f"{side}.left"),
+            "right": vm.alloc(SE, {"_id_": 22, "_is_false_": False, "_conclusion_": PySet([f"conclusion-of-the-{side}-operands-own-right"])}, tag=f"{side}.right")}
+        self.left = vm.alloc(OC, {"_id_": 11, "_is_false_": False, "_conclusion_": PySet(["left-conclusion"]), **inner("left")}, tag="left")
+        self.right = vm.alloc(OC, {"_id_": 12, "_is_false_": False, "_conclusion_": PySet(["right-conclusion"]), **inner("right")}, tag="right")
+        if operand_cls:
+            vm.spec.stubs[f"{operand_cls}._evaluate__"] = self.child_evaluate
         self.node = vm.alloc(vm.loader.cls(CS, cname), {"left": self.left, "right": self.right, "_id_": 10, "_is_false_": False, "_eval_parent_": None,
                                                          "left_evaluated": False, "right_evaluated": False, "_conclusion_": PySet([])}, tag=cname)
         vm.spec.havoc_exclude = set(getattr(vm.spec, "havoc_exclude", ())) | {"_eval_parent_"}
@@ -367,12 +375,19 @@ def count_inner_outputs(vm, base_cls_name, counter):
     vm.spec.stubs[f"{base_cls_name}._evaluate__"] = wrapped
 
 
-def h_except_if():
+def _evaluation_start():
+    """what a selector forgets when an evaluation starts (C03's contract on the same real ConclusionSelector._start_evaluation_):
+    the de-duplication records are part of which conclusion is selected"""
+    from .C03 import h_evaluation_start
+    return h_evaluation_start()
+
+
+def h_except_if(operand_cls=None):
     """ExceptIf: a false left result passes through; for a true left result every true result of the exception replaces it
     (with the exception's conclusions), and the left result itself (with its conclusions) is yielded iff the exception has none."""
     def run(vm):
         ctx = vm.ctx
-        W = SelWorld(vm, "ExceptIf")
+        W = SelWorld(vm, "ExceptIf", operand_cls)
 
         def inv_right(it, fr):
             # "the boolean local of the frame" (the flag that remembers whether the exception produced a true result), whatever it is called
@@ -420,14 +435,14 @@ def h_except_if():
                 ctx.fail("ExceptIf._evaluate__::every-output-stems-from-a-result-of-an-operand")
             ctx.check("ExceptIf._evaluate__::the-exception-is-evaluated-under-the-bindings-of-the-current-rule-result",
                       z3.BoolVal(all(c[1] is src for c in W.calls if c[0] == "left") and all(c[0] != "right" or c[1] is not src for c in W.calls)))
-    return Harness("select-ExceptIf", run, spec=Spec(), covers=["yielded", "left-false", "exception", "rule"], max_paths=400)
+    return Harness("select-ExceptIf" + (f"[operands:{operand_cls}]" if operand_cls else ""), run, spec=Spec(), covers=["yielded", "left-false", "exception", "rule"], max_paths=400)
 
 
-def h_alternative():
+def h_alternative(operand_cls=None):
     """Alternative (else-if): the first operand that holds provides the conclusions; the second is consulted only when the first is false."""
     def run(vm):
         ctx = vm.ctx
-        W = SelWorld(vm, "Alternative")
+        W = SelWorld(vm, "Alternative", operand_cls)
         src = vm.alloc(vm.ext("object"), {}, tag="incoming-bindings")
         n_updates = 0
         handed, passed = [], []
@@ -476,7 +491,7 @@ def h_alternative():
                     ctx.cover("neither")
             else:
                 ctx.fail("Alternative._evaluate__::every-output-stems-from-a-result-of-an-operand")
-    return Harness("select-Alternative", run, spec=Spec(), covers=["yielded", "first", "second", "neither"], max_paths=400)
+    return Harness("select-Alternative" + (f"[operands:{operand_cls}]" if operand_cls else ""), run, spec=Spec(), covers=["yielded", "first", "second", "neither"], max_paths=400)
 
 
 def h_next():
@@ -505,6 +520,10 @@ def h_next():
                 yield res_
             ctx.check("Next._evaluate__::every-result-of-the-union-is-passed-on-whether-or-not-it-selects-new-conclusions",
                       z3.BoolVal(len(passed) == len(handed)), detail=f"{len(handed)} results of the union, {len(passed)} outputs")
+            # the evaluation ran to its end: the next rule has ALSO been evaluated on its own, under the incoming bindings -- whatever the
+            # first rule did (held, failed, or had nothing to range over at all)
+            ctx.check("Next._evaluate__::the-next-rule-is-evaluated-on-its-own-whatever-the-first-rule-did",
+                      z3.BoolVal(any(n_ == "right" and s_ is src for n_, s_ in W.calls)), detail=repr([(n_, getattr(s_, "tag", s_)) for n_, s_ in W.calls]))
         for res in all_results():
             ctx.cover("yielded")
             l, r = W.last.get("left"), W.last.get("right")
@@ -544,7 +563,7 @@ def h_canary():
 
 def harnesses():
     return [surgery_harness("refinement"), surgery_harness("alternative"), surgery_harness("next_rule"), h_enter_exit(),
-            h_except_if(), h_alternative(), h_next(), h_canary()]
+            _evaluation_start(), h_except_if(), h_except_if("ExceptIf"), h_except_if("Alternative"), h_alternative(), h_alternative("ExceptIf"), h_next(), h_canary()]
 
 
 def harnesses_thorough():
